@@ -287,7 +287,7 @@ func (w *world) honest(k *keyInfo, bt *kit.IpnsBuilt) (valid bool, err error) {
 // Mut is one mutation of the target record's bytes.
 type Mut struct {
 	// Kind: set | clear | flip | dup | prepend | unknown | wrongtype | truncate | rawflip |
-	// resign | pad | reverse | altdata
+	// resign | pad | reverse | altdata | recbor (N: mode, Pos: entry, Mask: head width)
 	Kind  string `json:"kind"`
 	Field int32  `json:"field,omitempty"` // 1..9
 	// Src (set/dup/prepend): other (same field of record Other) | xfield (field N of the
@@ -316,7 +316,7 @@ func genMut(t *rapid.T, nrec int) Mut {
 	m := Mut{}
 	m.Kind = rapid.SampledFrom([]string{
 		"set", "set", "set", "set", "clear", "clear", "flip", "flip", "flip", "dup", "dup", "prepend", "unknown", "wrongtype",
-		"truncate", "rawflip", "rawflip", "resign", "resign", "pad", "reverse", "altdata", "altdata",
+		"truncate", "rawflip", "rawflip", "resign", "resign", "pad", "reverse", "altdata", "altdata", "recbor", "recbor", "recbor",
 	}).Draw(t, "kind")
 	m.Field = int32(rapid.SampledFrom([]int{1, 2, 3, 4, 5, 6, 7, 8, 8, 9, 9}).Draw(t, "field"))
 	m.Other = rapid.IntRange(0, nrec-1).Draw(t, "other")
@@ -654,6 +654,19 @@ func (mu *mutator) apply(m Mut, cur []byte) (out []byte, changed bool, err error
 				fs = removeField(fs, num)
 			}
 		}
+	case "recbor":
+		// the current data blob re-encoded as different CBOR bytes of (at most) the same logical
+		// document; signatures and legacy fields are kept
+		i := lastIndex(fs, 9)
+		if i < 0 || protowire.Type(fs[i].Typ) != protowire.BytesType {
+			return cur, false, nil
+		}
+		nd, l, ok := recbor(fs[i].B, m.N, m.Pos, int(m.Mask))
+		if !ok {
+			return cur, false, nil
+		}
+		label = l
+		fs[i].B = nd
 	default:
 		return cur, false, fmt.Errorf("harness: unknown mutation %q", m.Kind)
 	}
@@ -779,7 +792,7 @@ func run(c Case) kit.Result {
 
 var spec = kit.Spec[Case]{
 	Prop: "C25", Name: "main",
-	Rule:  "1-3 library-made records (all key types, shared or different keys, some expired, some padded to the size limit); record 0 undergoes 0-3 mutations (set/clear/flip/duplicate/prepend each protobuf field from another record, another field, a literal or a flipped copy; unknown fields; wrong wire type; field order reversal; padding to the size limit; truncation; raw byte flips; re-signing with another key with/without the domain prefix and with/without the embedded key; data of a differently-valued record); the bytes are validated against every key of the case with Validate / ValidateWithName / Validator.Validate (with and without key book); every acceptance must satisfy: effective data was signed with that key, signatureV2 verifies, unexpired, <= 10 KiB, accessors equal the signed inputs, legacy fields agree when value or signatureV1 is present, embedded key matches the name; honest records must pass iff unexpired and within the limit; non-trivial = mutated and still parseable",
+	Rule:  "1-3 library-made records (all key types, shared or different keys, some expired, some padded to the size limit); record 0 undergoes 0-3 mutations (set/clear/flip/duplicate/prepend each protobuf field from another record, another field, a literal or a flipped copy; unknown fields; wrong wire type; field order reversal; padding to the size limit; truncation; raw byte flips; re-signing with another key with/without the domain prefix and with/without the embedded key; data of a differently-valued record; the data blob re-encoded as different CBOR bytes of the same document: map entries reordered, non-minimal heads, indefinite lengths, repeated entry, trailing item); the bytes are validated against every key of the case with Validate / ValidateWithName / Validator.Validate (with and without key book); every acceptance must satisfy: effective data was signed with that key, signatureV2 verifies, unexpired, <= 10 KiB, accessors equal the signed inputs, legacy fields agree when value or signatureV1 is present, embedded key matches the name; honest records must pass iff unexpired and within the limit; non-trivial = mutated and still parseable",
 	Quick: 2000, Thorough: 15000,
 	Gen: gen, Run: run,
 	Sample: func(c Case) any {
